@@ -245,6 +245,25 @@ pub fn witness_c09frame() -> bool {
             }
         }
     }
+    // a complete frame is answered with a message or an error, never with "need more data" (the reader would wait for bytes
+    // the peer has no reason to send), and what follows it stays buffered
+    for body in [&[][..], &[0xff][..], &[7, 7, 7][..], &[0][..], &[2, 9][..]] {
+        let mut f = (body.len() as u32).to_be_bytes().to_vec();
+        f.extend_from_slice(body);
+        f.extend_from_slice(&[0xAA, 0xBB]);
+        let mut buf = BytesMut::from(&f[..]);
+        match SyncCodec.decode(&mut buf) {
+            Ok(None) => {
+                eprintln!("c09frame: a complete frame with body {body:?} is answered with need-more-data ({} of {} bytes left in the buffer)", buf.len(), f.len());
+                bad = true;
+            }
+            Ok(Some(_)) if buf[..] != [0xAA, 0xBB] => {
+                eprintln!("c09frame: a frame with body {body:?} decoded but consumed {} of {} bytes", f.len() - buf.len(), f.len() - 2);
+                bad = true;
+            }
+            _ => {}
+        }
+    }
     // an oversized length prefix is an error, never a message
     let mut big = BytesMut::from(&[0xffu8, 0xff, 0xff, 0xff, 1, 2][..]);
     if !matches!(SyncCodec.decode(&mut big), Err(_)) {
@@ -409,6 +428,41 @@ pub fn witness_c10steps() -> bool {
                 eprintln!("c10steps(c): replicas differ after a complete session: {} vs {} entries", ka.len(), kb.len());
                 bad = true;
             }
+        }
+        // ---------------- (c2) counts mirror also when the accepting side refuses one of the entries it is sent (an entry stamped
+        // an hour ahead by a sender whose clock runs fast: stored by the sender, refused by the receiver's validation)
+        {
+            use crate::ranger::Store as _;
+            let mut store = Store::memory();
+            store.import_author(author.clone()).unwrap();
+            let mut replica = store.new_replica(secret.clone()).unwrap();
+            crate::verif_incrate::witness::block_on(replica.hash_and_insert("a1", &author, "a1")).unwrap();
+            let ahead = (std::time::SystemTime::now() + std::time::Duration::from_secs(3600)).duration_since(std::time::UNIX_EPOCH).unwrap().as_micros() as u64;
+            let e = crate::Entry::new(crate::RecordIdentifier::new(namespace, author.id(), b"ahead"), crate::Record::new(iroh_blobs::Hash::new(b"x"), 1, ahead)).sign(&secret, &author);
+            replica.store.put(e).unwrap();
+            drop(replica);
+            store.close_replica(namespace);
+            let alice = SyncHandle::spawn(store, None, "alice-c2".to_string());
+            let bob = mk_handle(&["b1"], "bob-c2");
+            alice.open(namespace, OpenOpts::default().sync()).await.unwrap();
+            bob.open(namespace, OpenOpts::default().sync()).await.unwrap();
+            let (a, b) = tokio::io::duplex(1 << 16);
+            let (mut ar, mut aw) = tokio::io::split(a);
+            let (br, bw) = tokio::io::split(b);
+            let h = alice.clone();
+            let at = tokio::task::spawn(async move { run_alice(&mut aw, &mut ar, &h, namespace, bob_id).await });
+            let mut state = BobState::new(dialer_id);
+            let bres = tokio::time::timeout(std::time::Duration::from_secs(20), state.run(bw, br, bob.clone(), |_ns, _peer| std::future::ready(AcceptOutcome::Allow))).await;
+            let ares = tokio::time::timeout(std::time::Duration::from_secs(20), at).await;
+            let bout = state.into_outcome();
+            if let (Ok(Ok(Ok(aout))), Ok(Ok(_))) = (ares, bres) {
+                if aout.num_sent != bout.num_recv || aout.num_recv != bout.num_sent {
+                    eprintln!("c10steps(c2): both sides succeeded but the counts do not mirror: alice sent {} recv {}, bob sent {} recv {}", aout.num_sent, aout.num_recv, bout.num_sent, bout.num_recv);
+                    bad = true;
+                }
+            }
+            let _ = alice.shutdown().await;
+            let _ = bob.shutdown().await;
         }
         // ---------------- (d) unexpected frames on the accepting side
         for script in 0..3 {
